@@ -97,6 +97,8 @@ class Unit:
                 if len(hits) != 1:
                     raise Undecided('MUST-FIRE: enumerator %s not found' % key[5:])
                 return str(hits[0])
+            if key.startswith('word:'):       # index of a spelling in the reserved-word table as clang evaluated it (constant offsets keep cbmc's value sets small)
+                return str(self.word_index(key[5:]))
             if key.startswith('virt:'):
                 return '__virt_' + self.resolve_virt(key[5:]) + '__ext'
             if key in getattr(self, 'std', {}):
@@ -110,7 +112,20 @@ class Unit:
                     raise Undecided('MUST-FIRE: std stub %s (%s) is not called by the lowered code of unit %s' % (key, n, self.name))
                 return n
             return self.resolve_name(key)
-        return re.sub(r'@\{([A-Za-z0-9_:.<>]+)\}', sub, text)
+        return re.sub(r'@\{([A-Za-z0-9_:.<>+ ]+)\}', sub, text)
+
+    def word_index(self, spelling):
+        if not hasattr(self, '_words'):
+            m = re.search(r'^struct \S+ g__ZN3ipr4impl12_GLOBAL__N_111known_wordsE\[(\d+)\] = (.*)$', open(self.c).read(), re.M)
+            if not m:
+                raise Undecided('MUST-FIRE: the reserved-word table is not in the lowered unit %s' % self.name)
+            lits = re.findall(r'\(unsigned char\*\)"((?:\\[0-7]{3})*)"', m.group(2))
+            self._words = [''.join(chr(int(o, 8)) for o in re.findall(r'\\([0-7]{3})', l)) for l in lits]
+            if len(self._words) != int(m.group(1)):
+                raise Undecided('MUST-FIRE: cannot read the reserved-word table (%d literals for %s entries)' % (len(self._words), m.group(1)))
+        if spelling not in self._words:
+            raise Undecided('MUST-FIRE: %r is not a reserved word of the current tree' % spelling)
+        return self._words.index(spelling)
 
     def resolve_virt(self, short):
         sel = self.names.get(short)
@@ -204,7 +219,9 @@ def run_ob(ob, workdir, keep=False):
         open(cpath, 'w').write(src)
         entry = u.resolve_text(ob.entry)
         gb = os.path.join(d, 'ob.gb')
-        rc, out, err, dt = sh(['goto-cc', '--function', entry, '-DIPR_CANARY', '-I' + os.path.join(VERIF, 'harness')] + ['-D' + x for x in ob.defines] + ['-DIPR_SKIP_' + u.resolve_text(x) for x in ob.skip] + [cpath, '-o', gb], timeout=300)
+        gcc_cmd = ['goto-cc', '--function', entry, '-DIPR_CANARY', '-I' + os.path.join(VERIF, 'harness')] + ['-D' + x for x in ob.defines] + ['-DIPR_SKIP_' + u.resolve_text(x) for x in ob.skip] + [cpath, '-o', gb]
+        open(os.path.join(d, 'cmds.sh'), 'w').write(' '.join(gcc_cmd) + '\n')
+        rc, out, err, dt = sh(gcc_cmd, timeout=300)
         if rc != 0:
             raise Undecided('goto-cc failed: ' + (err + out)[-3000:])
         if re.search(r'\bwarning: ignoring\b', err):
@@ -229,6 +246,8 @@ def run_ob(ob, workdir, keep=False):
             cmd += ['--bounds-check', '--pointer-check', '--div-by-zero-check', '--pointer-overflow-check', '--signed-overflow-check']
         if ob.unwind is not None:
             cmd += ['--unwind', str(ob.unwind), '--unwinding-assertions']
+        elif '--unwind' not in ob.flags:
+            cmd += ['--unwind', '8', '--unwinding-assertions']     # never unwind without a bound: a changed loop must not exhaust memory
         if ob.objbits:
             cmd += ['--object-bits', str(ob.objbits)]
         if ob.smt:
@@ -237,6 +256,7 @@ def run_ob(ob, workdir, keep=False):
             cmd += ['--external-sat-solver', ob.solver]
         cmd += ob.flags
         res['cmd'] = ' '.join(cmd)
+        open(os.path.join(d, 'cmds.sh'), 'a').write(' '.join(cmd) + '\n')
         if ob.heavy:
             with HEAVY:
                 rc, out, err, dt = sh(cmd, timeout=ob.timeout)
@@ -411,7 +431,13 @@ def run_property(pid, tier, obs, units, seed, level='proof', assumptions=(), tru
                     known_hits.append((hit[0], r, f))
                 else:
                     rest.append(f)
-            tainted = [f for f in rest if f['description'].startswith('no body for callee') or 'unwinding assertion' in f['description'] or f['description'].startswith('recursion unwinding')]
+            # a missing callee body makes return values arbitrary: the other failures of that run cannot be trusted.  A failed
+            # unwinding assertion only means the bound was too small for a PROOF: counterexamples found within the bound are real.
+            tainted = [f for f in rest if f['description'].startswith('no body for callee')]
+            unwind_only = [f for f in rest if 'unwinding assertion' in f['description'] or f['description'].startswith('recursion unwinding')]
+            if unwind_only and len(unwind_only) == len(rest):
+                undecided.append(dict(id=r['id'], reason='loop bound too small on the changed code: ' + unwind_only[0]['description']))
+                continue
             if rest:
                 if r['id'] not in baseline and os.environ.get('IPR_STRICT_BASELINE', '1') == '1' and baseline:
                     undecided.append(dict(id=r['id'], reason='fails but is not in the committed baseline of obligations (new instance?): ' + rest[0]['description']))
